@@ -21,6 +21,12 @@ def countBranches (lm : LogMath) (x y dx dy : Int) (n : Nat) : List (String × N
   let bs := (List.range n).map fun (i : Nat) => logAddBranch lm (x + (i : Int) * dx) (y + (i : Int) * dy)
   names.map fun nm => (nm, (bs.filter (· == nm)).length)
 
+def parseRuns (t : String) : Option (List (Nat × Nat)) :=
+  (t.splitOn ",").mapM fun p =>
+    match p.splitOn ":" with
+    | [v, n] => do let v ← parseNat v; let n ← parseNat n; pure (v, n)
+    | _ => none
+
 def step (s : St) (ws : List String) : St × String :=
   match ws with
   | ["cfg", name, _base, _shift] =>
@@ -30,6 +36,16 @@ def step (s : St) (ws : List String) : St × String :=
       ({ cfg := some c, lm },
        s!"cfg {name} size {lm.table.size} width {widthOf (tval lm.table 0)} shift {lm.shift} zero {zeroOf lm.shift}")
     | none => (s, "unknown-cfg")
+  | ["cfgdyn", name, shift, runs] =>
+    -- a table dumped in this run for a base without a generated (kernel-checked) table:
+    -- `runs` is `v:n,v:n,…`; zero and width are the model's
+    match parseNat shift, parseRuns runs with
+    | some sh, some rl =>
+      let lm : LogMath := { table := tableOfRuns rl, zero := zeroOf sh, shift := sh }
+      let c : Config := ⟨0, 0, sh, 0, 0, widthOf (tval lm.table 0), lm.table.size, lm.zero, rl⟩
+      ({ cfg := some c, lm },
+       s!"cfg {name} size {lm.table.size} width {widthOf (tval lm.table 0)} shift {lm.shift} zero {zeroOf lm.shift}")
+    | _, _ => (s, "bad-op")
   | _ =>
     match s.cfg with
     | none => (s, "no-cfg")
